@@ -620,6 +620,14 @@ class ExperimentPackage(StorageStructurePathResolver):
                     # VV: It's OK for the conf folder to already exist, it could have commonly used pipeline definitions
                     # in it which the flowir we're copying into the conf dir $imports
                     os.makedirs(conf_dir)
+
+                # VV: The workflow definition is stored in the instance. If the manifest linked `conf` (or the file) to a
+                # folder of the package, writing through the link would modify the package, i.e. files outside the instance
+                definition_path = os.path.join(conf_dir, "dsl.yaml" if file_format == "dsl" else "flowir_package.yaml")
+                real_root = os.path.realpath(targetPath)
+                if os.path.commonpath([real_root, os.path.realpath(definition_path)]) != real_root:
+                    raise OSError(errno.EPERM, "The manifest makes the conf directory of the instance point outside the "
+                                               "instance directory (use :copy instead of :link)", definition_path)
                 if file_format == "dsl":
                     shutil.copyfile(path, os.path.join(conf_dir, "dsl.yaml"))
                 else:
